@@ -25,11 +25,12 @@ func caseGen() *rapid.Generator[Case] {
 		max = 14
 	}
 	sg := gen.ScriptGen(gen.ScriptOpts{
-		Item:     gen.StrItem(tokens, 4),
-		MinOps:   0,
-		MaxOps:   max,
-		MaxCells: 4,
-		Creators: []string{"core", "html", "html", "csv"},
+		Item:       gen.StrItem(tokens, 4),
+		MinOps:     0,
+		MaxOps:     max,
+		MaxCells:   4,
+		Creators:   []string{"core", "html", "html", "csv"},
+		AllowReAdd: true,
 	})
 	opt := func(t *rapid.T, label string) gen.Str {
 		if rapid.IntRange(0, 2).Draw(t, label+"?") == 0 {
@@ -44,8 +45,7 @@ func caseGen() *rapid.Generator[Case] {
 			Class:    opt(t, "class"),
 			Caption:  opt(t, "caption"),
 			TmplName: opt(t, "tmpl"),
-			RowClass: rapid.Bool().Draw(t, "rowclass"),
-			Renders:  rapid.IntRange(1, 2).Draw(t, "renders"),
+			Gens:     rapid.SliceOfN(rapid.IntRange(0, 2), 1, 3).Draw(t, "gens"),
 		}
 	})
 }
